@@ -277,3 +277,10 @@ def wide_manager(nvars, rot=0):
 
 def wide_subsets(nvars, k):
     return list(itertools.combinations(range(nvars), k))
+
+
+def norm(x):
+    """Nested lists/tuples -> nested tuples (a case read back from JSON compares equal)."""
+    if isinstance(x, (list, tuple)):
+        return tuple(norm(y) for y in x)
+    return x
